@@ -430,3 +430,12 @@ def run(ctx):
         ctx.lost("C02.R5", "castling-right bookkeeping of make (needed to know whose right each flag is)")
     else:
         r4_r5_generation(ctx, fields, setters, pairing, roles)
+
+
+_run_before_fx = run
+
+
+def run(ctx):
+    _run_before_fx(ctx)
+    from . import movefx_rules
+    movefx_rules.rule_make_vs_rules(ctx)
